@@ -142,6 +142,10 @@ def plans(tier, seed):
         P.append((('vacuum', (1, 'mid'), N, p, seed), red, 2))
         P.append((('tensor', (1, 'always'), N, p, seed), small, 3))
         P.append((('components', (2, 'mid'), N, p, seed), small, 3))
+        P.append((('rho_only', (1, 'always'), N, p, seed),
+                  ['rho0', 'eps', 'rho', 'enthalpy', 'press', 'conserved_D',
+                   'conserved_E', 'rho_n', 'Tdown4', 'gammadet', 'Ttrace'],
+                  3))
         P.append((('tensor_other', dflt, N, p, seed),
                   red + ['uup4', 'eweyl_u_down4', 'bweyl_u_down4',
                          'h:null_vector_base'], 2))
@@ -151,7 +155,7 @@ def plans(tier, seed):
             for cconf in (dflt, (1, 'always'), (3, 'mid'), (5, 'mid2'),
                           (2, 'never')):
                 P.append(((incfg, cconf, N, p, seed), full, 2))
-        for incfg in ('tensor', 'components', 'fluid'):
+        for incfg in ('tensor', 'components', 'fluid', 'rho_only'):
             for cconf in ((1, 'always'), (2, 'mid'), (3, 'mid2')):
                 P.append(((incfg, cconf, N, p, seed), red, 3))
         P.append((('tensor', (2, 'mid'), N, p, seed), small, 4))
